@@ -19,6 +19,14 @@ parameter spec (first word of every request): `<dividehex>/<hasattrs 0|1>/<attrh
 * `c16carry` : `<stmt> <stmt> ..` with `e` | `d:<W|LW|IB|IW>[+<..>]` | `j:<cc 0..7|->:<addr hex>`
                                                      → `model=<hex|err> spec=<hex> ok=<0|1> eq=<0|1>`
    (Z380 DDIR hand-over: model of MakeCode_Z80/DecodeDDIR/DecodeJP over the lines vs. the SPEC's code of the statements)
+* `c16sweep` : `<pspec> <padhex> <n>,<n>,.. <seg0hex> <seg1hex> ..`
+                                                     → `k=<lines> ck=<checksum of all characters> same=<0|1> bufok=<0|1> hitsarg=<m> hitscomm=<m> aplen=<first>-<last> lab= op= rawop= attr= n= args=`
+   (length sweep: line(n) = seg0 ++ pad ++ seg1 ++ pad ++ .. with n pad characters in total, spread evenly over the holes, the
+   first n mod holes ones getting one more; pad characters are taken cyclically from `<padhex>`.  All lines go, in the given
+   order, through `splitBufRun` starting with all capacities = STRINGSIZE: `same` = all lines have the fields of the first one
+   (up to letter case of op/attr), `bufok` = the buffered splitter delivered the fields of the unbounded one on every line
+   (instance of C16_buffers_run), `hitsarg`/`hitscomm` = number of lines whose argument field / comment was exactly as long
+   as the buffer capacity at that moment; the fields shown are those of the first line)
 * `c16spec`  : `<pspec> <label> <colon 0|1> <gap1> <op> <attr|*> <gap2> <comment|*> (<pre>:<text>:<post>)*`
                                                      → `line=<hex> thm=<0|1>`   (SPEC `render`; `thm` = model split of it = SPEC fields)
 -/
@@ -152,6 +160,38 @@ def handleCarry (line : String) : String :=
     let ms := match m with | some c => hex c | none => "err"
     s!"model={ms} spec={hex sp} ok={b01 ok} eq={b01 (decide (m = some sp))}"
   | none => "bad-request"
+
+/-- `m` pad characters, taken cyclically from `pad` -/
+def padTo (pad : List Char) (m : Nat) : List Char :=
+  if pad.isEmpty then List.replicate m ' ' else (List.range m).map (fun i => pad.getD (i % pad.length) ' ')
+
+def fillGo (pad : List Char) (n holes : Nat) : Nat → List (List Char) → List Char
+  | _, [] => []
+  | j, s :: rest => padTo pad (n / holes + (if j < n % holes then 1 else 0)) ++ s ++ fillGo pad n holes (j + 1) rest
+
+/-- the line of a sweep with `n` pad characters in total -/
+def fillHoles (pad : List Char) (n : Nat) (segs : List (List Char)) : List Char :=
+  match segs with
+  | [] => []
+  | s0 :: rest => s0 ++ fillGo pad n (max rest.length 1) 0 rest
+
+def handleSweep (line : String) : String :=
+  match words line with
+  | ps :: padh :: nsS :: segsH =>
+    match parseParams ps, unhexC padh, (nsS.splitOn ",").mapM String.toNat?, segsH.mapM unhexC with
+    | some p, some pad, some ns, some segs =>
+      let lines := ns.map (fun n => fillHoles pad n segs)
+      let run := splitBufRun p {} lines
+      let plain := lines.map (split p)
+      match plain with
+      | [] => "bad-request"
+      | f0 :: _ =>
+        let same := plain.all (fun f => decide (f.norm = f0.norm))
+        let aplens := lines.map (fun l => (argPartOf p l).length)
+        let ck := lines.foldl (fun acc l => (l.foldl (fun a ch => (a * 31 + ch.toNat) % 4294967296) acc)) 7
+        s!"k={lines.length} ck={ck} same={b01 same} bufok={b01 (decide (run.1 = plain))} hitsarg={run.2.1} hitscomm={run.2.2} aplen={aplens.headD 0}-{aplens.getLastD 0} {showFields f0}"
+    | _, _, _, _ => "bad-request"
+  | _ => "bad-request"
 
 def parseArg (s : String) : Option Arg :=
   match (s.splitOn ":").mapM unhexC with
